@@ -18,6 +18,7 @@ A node-level part (wire capture of whole node runs, interface queue) can be appe
 import json
 import os
 import vplib as V
+from checks import cloudcommon
 from checks.c17 import bad_lines, parallel, selftest, Findings, JVM, limited, pick_lines
 
 PID = "C02"
@@ -229,6 +230,7 @@ def node_level(tier, out, cov):
 def run(tier, out):
     cov = object_level(tier, out)
     node_level(tier, out, cov)
+    cloudcommon.part(PID, tier, out, cov)
     return out.finish("model_checking", cov, assumptions=ASSUMPTIONS)
 
 
